@@ -84,3 +84,69 @@ Proof.
   { destruct (cross_orthogonal N Xv) as [_ E]. revert E. generalize (cross3 N Xv). intros c E. destruct Xv, c. gen_in E. gen. lra. }
   repeat split; auto.
 Qed.
+
+(* ------------------------------------------------------------------ frame(N, up): both branches *)
+Definition frame2 := frame__v3f_v3f IR.
+(* the literal 0.99f of the source, as the decimal expansion of the binary32 value clang reports *)
+Definition c99 : R := IZR 990000009 / IZR 1000000000.
+
+Lemma lagrange (a b : V3) : dot3 (cross3 a b) (cross3 a b) = dot3 a a * dot3 b b - dot3 a b * dot3 a b.
+Proof. recs. gen. ring. Qed.
+
+(* the guard is two-sided: the fallback frame(N) is taken when up is nearly parallel OR nearly anti-parallel to N *)
+Lemma frame_up_unfold (N up : V3) :
+  frame2 N up =
+  if Rltb c99 (Rabs (dot3 up N)) then frame1 N
+  else mk_LinearSpace3 IR (normalize3 (cross3 up N)) (normalize3 (cross3 N (normalize3 (cross3 up N)))) N.
+Proof. reflexivity. Qed.
+
+Lemma frame_up_orthonormal (N up : V3) :
+  dot3 N N = 1 -> dot3 up up = 1 ->
+  let F := frame2 N up in
+  let X := LinearSpace3_vx F in let Y := LinearSpace3_vy F in
+  LinearSpace3_vz F = N /\ dot3 X X = 1 /\ dot3 Y Y = 1 /\ dot3 X Y = 0 /\ dot3 X N = 0 /\ dot3 Y N = 0 /\ det3 F = 1 /\
+  Y = cross3 N X.
+Proof.
+  intros HN HU F X Y. subst X Y F. rewrite frame_up_unfold. unfold Rltb.
+  destruct (Rlt_dec c99 (Rabs (dot3 up N))) as [G | G].
+  - exact (frame_orthonormal N HN).
+  - cbn [LinearSpace3_vx LinearSpace3_vy LinearSpace3_vz].
+    assert (Hc : c99 * c99 < 1) by (unfold c99; lra).
+    assert (Hd : dot3 up N * dot3 up N <= c99 * c99).
+    { set (d := dot3 up N) in *. unfold Rabs in G. destruct (Rcase_abs d); nra. }
+    assert (Hpos : 0 < dot3 (cross3 up N) (cross3 up N)) by (rewrite lagrange, HN, HU; lra).
+    assert (Hperp : dot3 (cross3 up N) N = 0) by (destruct (cross_orthogonal up N) as [_ E]; exact E).
+    set (Xv := normalize3 (cross3 up N)).
+    assert (HX : dot3 Xv Xv = 1) by (apply normalize_is_unit; exact Hpos).
+    assert (HXN : dot3 Xv N = 0) by (unfold Xv; rewrite normalize_dot, Hperp; apply Rmult_0_r).
+    destruct (triad_XN Xv N HX HN HXN) as [A [B [C D]]].
+    rewrite (normalize_of_unit _ A).
+    assert (Hsym : dot3 Xv (cross3 N Xv) = 0).
+    { destruct (cross_orthogonal N Xv) as [_ E]. revert E. generalize (cross3 N Xv). intros c E. destruct Xv, c. gen_in E. gen. lra. }
+    repeat split; auto.
+Qed.
+
+(* the slip "guard without abs()": kept only to be refuted.  For up = -N the non-degenerate branch is taken although
+   up x N = 0, and the first axis is not a unit vector. *)
+Definition frame_up_one_sided (N up : V3) : M3 :=
+  if Rltb c99 (dot3 up N) then frame1 N
+  else mk_LinearSpace3 IR (normalize3 (cross3 up N)) (normalize3 (cross3 N (normalize3 (cross3 up N)))) N.
+
+Lemma frame_up_one_sided_refuted :
+  exists N up, dot3 N N = 1 /\ dot3 up up = 1 /\
+    dot3 (LinearSpace3_vx (frame_up_one_sided N up)) (LinearSpace3_vx (frame_up_one_sided N up)) <> 1 /\
+    dot3 (LinearSpace3_vx (frame2 N up)) (LinearSpace3_vx (frame2 N up)) = 1.
+Proof.
+  exists (v3 0 0 1), (v3 0 0 (-1)).
+  assert (HN : dot3 (v3 0 0 1) (v3 0 0 1) = 1) by (gen; ring).
+  assert (HU : dot3 (v3 0 0 (-1)) (v3 0 0 (-1)) = 1) by (gen; ring).
+  repeat split; auto.
+  - unfold frame_up_one_sided, Rltb.
+    destruct (Rlt_dec c99 (dot3 (v3 0 0 (-1)) (v3 0 0 1))) as [G | G].
+    + exfalso. revert G. unfold c99. gen. lra.
+    + cbn [LinearSpace3_vx]. intro E.
+      assert (Z : dot3 (normalize3 (cross3 (v3 0 0 (-1)) (v3 0 0 1))) (normalize3 (cross3 (v3 0 0 (-1)) (v3 0 0 1))) = 0)
+        by (gen; unfold Rdiv; ring).
+      rewrite Z in E. lra.
+  - destruct (frame_up_orthonormal _ _ HN HU) as [_ [E _]]. exact E.
+Qed.
